@@ -501,6 +501,13 @@ impl R {
                     if ws.is_empty() && enc != input {
                         // clean decode of non-canonical bytes: what is written back must mean the same
                         o.count("clean_noncanonical");
+                        // ... and the message id is never among the non-canonical parts: an id
+                        // that is not the described one (`ordinal << 1 | sys`, or 0/1 + UUID) is
+                        // rejected or at least warned about, so a warning-free decode re-encodes
+                        // to the same leading id byte
+                        if input.len() >= 2 && enc.len() >= 2 && input[..2] != enc[..2] {
+                            o.fail("C14/undescribed-id-accepted", format!("bytes={} {} decoded={} reencoded={}", input, name, val, enc));
+                        }
                     }
                     if enc != input {
                         match dec_again(&parse_hex(enc).unwrap()) {
